@@ -364,8 +364,11 @@ func inlineTriggers(p *pagedoc.TPara) []string {
 	}
 	walk(p.Items, p.Mode, false)
 	var out []string
-	if spaceNextToBlock(p) {
+	if spaceNextTo(p, 'B') {
 		out = append(out, "space-next-to-block-in-inline")
+	}
+	if spaceNextTo(p, 'A') {
+		out = append(out, "space-next-to-inline-block")
 	}
 	if space {
 		out = append(out, "space-at-box-boundary")
@@ -376,11 +379,12 @@ func inlineTriggers(p *pagedoc.TPara) []string {
 	return out
 }
 
-// spaceNextToBlock: a collapsible white space is the neighbour of a block inside an inline
-// box (span boundaries and out-of-flow boxes in between do not count)
-func spaceNextToBlock(p *pagedoc.TPara) bool {
+// spaceNextTo: a collapsible white space is the neighbour of a block inside an inline
+// box (what = 'B') / of an inline-block (what = 'A'); span boundaries and out-of-flow boxes
+// in between do not count
+func spaceNextTo(p *pagedoc.TPara, what byte) bool {
 	type tok struct {
-		kind        byte // 'B' block-in-inline, 'T' text, 'X' other in-flow inline content
+		kind        byte // 'B' block-in-inline, 'A' inline-block, 'T' text, 'X' other in-flow inline content
 		first, last byte
 		coll        bool
 	}
@@ -397,6 +401,8 @@ func spaceNextToBlock(p *pagedoc.TPara) bool {
 				walk(it.Kids)
 			case pagedoc.TBlockIn:
 				toks = append(toks, tok{kind: 'B'})
+			case pagedoc.TInlineBlock:
+				toks = append(toks, tok{kind: 'A'})
 			case pagedoc.TFloat, pagedoc.TAbs:
 			default:
 				toks = append(toks, tok{kind: 'X'})
@@ -409,10 +415,10 @@ func spaceNextToBlock(p *pagedoc.TPara) bool {
 		if t.kind != 'T' || !t.coll {
 			continue
 		}
-		if i > 0 && toks[i-1].kind == 'B' && ws(t.first) {
+		if i > 0 && toks[i-1].kind == what && ws(t.first) {
 			return true
 		}
-		if i+1 < len(toks) && toks[i+1].kind == 'B' && ws(t.last) {
+		if i+1 < len(toks) && toks[i+1].kind == what && ws(t.last) {
 			return true
 		}
 	}
